@@ -215,6 +215,13 @@ pub fn reset_sandbox(root: &Path, fl: &Flags, spec: &str) -> bool {
                 }
                 continue;
             }
+            if let Some(target) = h.strip_prefix('!') {
+                // a dangling symbolic link (its target does not exist): for a read request the name is simply missing
+                if std::os::unix::fs::symlink(target, &path).is_err() {
+                    return false;
+                }
+                continue;
+            }
             if let Some(target) = h.strip_prefix('@') {
                 // a symbolic link to a file of the same directory (named earlier in the spec)
                 if std::os::unix::fs::symlink(target, &path).is_err() {
@@ -260,6 +267,9 @@ fn listing_rec(root: &Path, d: &Path, out: &mut Vec<String>) {
     if let Ok(rd) = std::fs::read_dir(d) {
         for e in rd.flatten() {
             let p = e.path();
+            if p.is_symlink() && !p.exists() {
+                continue; // a dangling link of the sandbox spec is not a file
+            }
             let rel = enc_rel(p.strip_prefix(root).unwrap());
             if p.is_dir() && !p.is_symlink() {
                 out.push(format!("{}/", rel));
@@ -765,6 +775,141 @@ pub fn staleretx_line(toks: &[&str]) -> String {
         send_error(&sock, &from);
     }
     format!("first=oack retx={} done={} got={}:{}", retx, done, got.len(), fnv(&got))
+}
+
+/// a transfer whose client is silent for a long time (within the worker's retry budget) while ANOTHER client is served, and then goes on:
+/// `quiet <root> <flags> <fs> <request-hex of A> <silence-ms> <rrq-hex of B>`  (real time; lock-step, default block size unless negotiated)
+pub fn quiet_line(toks: &[&str]) -> String {
+    if toks.len() != 7 {
+        return "bad-op".into();
+    }
+    let (Some(root_b), Some(dgram), Ok(silence), Some(other)) = (unhex(toks[1]), unhex(toks[4]), toks[5].parse::<u64>(), unhex(toks[6])) else {
+        return "bad-op".into();
+    };
+    let root = PathBuf::from(String::from_utf8(root_b).unwrap());
+    let fl = parse_flags(toks[2]);
+    let port = server_port(&root, toks[2]);
+    if !reset_sandbox(&root, &fl, toks[3]) {
+        return "bad-op".into();
+    }
+    let listener: SocketAddr = listener_of(&fl, port);
+    let a = bind_client(&fl);
+    let upload = dgram.len() >= 2 && dgram[1] == 2;
+    a.send_to(&dgram, listener).unwrap();
+    // the handshake and the first block
+    let mut peer: Option<SocketAddr> = None;
+    let mut blk = 512usize;
+    let up_data: Vec<u8> = gen_bytes(3 * 512 + 7, 5);
+    let mut first = "other".to_string();
+    for _ in 0..3 {
+        match recv_packet(&a, Duration::from_millis(1500)) {
+            Some((Ok(Packet::Oack(opts)), f, _)) => {
+                for o in &opts {
+                    if o.option == tftpd::OptionType::BlockSize {
+                        blk = o.value as usize;
+                    }
+                }
+                peer = Some(f);
+                if upload {
+                    first = "ack0".into();
+                    break;
+                }
+                a.send_to(&Packet::Ack(0).serialize().unwrap(), f).unwrap();
+            }
+            Some((Ok(Packet::Ack(0)), f, _)) if upload => {
+                peer = Some(f);
+                first = "ack0".into();
+                break;
+            }
+            Some((Ok(Packet::Data { block_num: 1, .. }), f, _)) if !upload => {
+                peer = Some(f);
+                first = "data".into();
+                break;
+            }
+            _ => break,
+        }
+    }
+    let Some(to) = peer else { return format!("first={}", first) };
+    if first == "other" {
+        return "first=other".into();
+    }
+    let block = |k: usize| -> Vec<u8> {
+        let lo = (k - 1) * blk;
+        let hi = std::cmp::min(k * blk, up_data.len());
+        if lo >= up_data.len() { vec![] } else { up_data[lo..hi].to_vec() }
+    };
+    if upload {
+        a.send_to(&Packet::Data { block_num: 1, data: block(1) }.serialize().unwrap(), to).unwrap();
+        match recv_packet(&a, Duration::from_millis(1500)) {
+            Some((Ok(Packet::Ack(1)), _, _)) => {}
+            _ => return "first=noack1".into(),
+        }
+    }
+    // A falls silent (the server's retransmissions are ignored) ...
+    let t0 = std::time::Instant::now();
+    while t0.elapsed() < Duration::from_millis(silence) {
+        let _ = recv_packet(&a, Duration::from_millis(100));
+    }
+    // ... B is served in the meantime ...
+    let (rb, convb) = converse(&fl, listener, &other);
+    let b_ok = if convb.starts_with('D') || rb.contains("oack") { "ok" } else { "no" };
+    // ... and A goes on where it stopped
+    while recv_packet(&a, Duration::from_millis(20)).is_some() {}
+    let mut resumed = "no".to_string();
+    let mut done = "no";
+    if upload {
+        let nblocks = up_data.len() / blk + 1;
+        for k in 2..=nblocks {
+            a.send_to(&Packet::Data { block_num: k as u16, data: block(k) }.serialize().unwrap(), to).unwrap();
+            match recv_packet(&a, Duration::from_millis(1500)) {
+                Some((Ok(Packet::Ack(n)), _, _)) if n as usize == k => {
+                    if k == 2 {
+                        resumed = "ok".into();
+                    }
+                    if k == nblocks {
+                        done = "ok";
+                    }
+                }
+                Some((Ok(p), _, _)) => {
+                    if k == 2 {
+                        resumed = format!("no:{}", show_reply(&p).replace(' ', "_"));
+                    }
+                    break;
+                }
+                _ => break,
+            }
+        }
+    } else {
+        let mut k = 1u16;
+        a.send_to(&Packet::Ack(k).serialize().unwrap(), to).unwrap();
+        loop {
+            match recv_packet(&a, Duration::from_millis(1500)) {
+                Some((Ok(Packet::Data { block_num, data }), _, _)) if block_num == k + 1 => {
+                    if k == 1 {
+                        resumed = "ok".into();
+                    }
+                    k += 1;
+                    a.send_to(&Packet::Ack(k).serialize().unwrap(), to).unwrap();
+                    if data.len() < blk {
+                        done = "ok";
+                        break;
+                    }
+                }
+                Some((Ok(Packet::Data { .. }), _, _)) => continue, // a late retransmission
+                Some((Ok(p), _, _)) => {
+                    if k == 1 {
+                        resumed = format!("no:{}", show_reply(&p).replace(' ', "_"));
+                    }
+                    break;
+                }
+                _ => break,
+            }
+        }
+    }
+    if done != "ok" {
+        send_error(&a, &to);
+    }
+    format!("first={} b={} resumed={} done={}", first, b_ok, resumed, done)
 }
 
 /// a batch of hostile datagrams from several sources, then a probe request
